@@ -26,6 +26,15 @@ let cmd_pa (l : lattice) (l' : lattice) =
   let bad = List.filter (fun v -> not (rot_agree_at l l' (nat_of_int v))) (seq_from 0 (List.length l.pos)) in
   out "rot_bad_vertices" (s_list string_of_int bad);
   out "faces" (match all_faces l with None -> "ERR" | Some fs -> string_of_int (List.length fs));
+  (* indices (discovery order) of the face walks whose orientation verdict "winding = -1" changes, with both windings *)
+  (match all_faces l with
+   | None -> out "valid_bad_faces" "0"
+   | Some fs ->
+     let bad = List.concat (List.mapi (fun i f ->
+         let w = winding (List.map (dvec l) f.f_walk) and w' = winding (List.map (dvec l') f.f_walk) in
+         let m1 = Zneg XH in
+         if (w = m1) <> (w' = m1) then [string_of_int i ^ " " ^ s_z w ^ " " ^ s_z w' ^ " " ^ string_of_int (List.length f.f_walk)] else []) fs) in
+     out "valid_bad_faces" (sp (string_of_int (List.length bad) :: bad)));
   out "wrap" (s_bool (wrap_agree l l'));
   out "wind" (s_bool (wind_agree l l'));
   out "valid" (s_bool (valid_agree l l'));
